@@ -2,16 +2,36 @@
 import k1
 from units import scope
 LEVEL = "proof"
+
+
+class _Keyed:
+    """Check proxy: gives the one defect class that has its own refuted theorem a specific key
+    (one per scope version) instead of one key per program."""
+    def __init__(self, chk, variant):
+        self._chk, self._variant = chk, variant
+    def __getattr__(self, n):
+        return getattr(self._chk, n)
+    def violation(self, key, replay_path, no_input=False, text=""):
+        if text.startswith("scope touched after"):
+            key = "scope-set-after-join:" + self._variant
+        return self._chk.violation(key, replay_path, no_input=no_input, text=text)
+
+
 def run(chk, replay=None):
     chk.cov["trusted_base"] = [
-        "Coq 8.16.1 kernel; no axioms (Print Assumptions closed) for every theorem in Properties_C08*.v",
+        "Coq 8.16.1 kernel; no axioms (Print Assumptions closed) for every theorem in Properties_C08.v",
         "extraction ExtrOcamlBasic only; ocaml/lockstep.ml, handlers/h_scope.ml glue (memory-order annotations live in the handler's render)",
-        "harness: verif_shim.hpp + dsched (serialises real threads: sequential consistency assumed), vh.hpp leaves, k1_scope_common.hpp (resume-on-own-thread scheduler, direct monitor), k1_scope*.cpp",
-        "modelled abstractly, not verified here: the manual reset event's internals (C16) - one linearisation point per wait/set; the stop source (C03/C04) - one 'stop SET' point; v1 attach's refcount_ election is monitored on the implementation only"]
+        "harness: verif_shim.hpp + dsched (serialises real threads: sequential consistency assumed), vh.hpp leaves, "
+        "k1_scope_common.hpp (resume-on-own-thread scheduler, direct monitor), k1_scope.cpp / k1_scope_v1.cpp / k1_scope_v0.cpp",
+        "tools/units/scope.py projection: a record_completion is attributed to a reference that is ready to be released "
+        "(relabelling of interchangeable model threads); the copy of an empty nest sender is no reference",
+        "modelled abstractly, not verified here: the manual reset event's internals (C16) - one linearisation point per wait / set; "
+        "the stop source (C03/C04) - one 'stop SET' point; v1 attach's refcount_ election and spawn_future's state machine (C09) "
+        "are exercised and monitored on the implementation only"]
     chk.cov["rule"] = ("K1: all schedules of each program with <= bound preemptions plus seeded random ones; "
                        "distinct = distinct projected traces; non-trivial = at least two context switches among owned events")
+    chk.cov["end_scope_variant_tied"] = ("strict (the event is set by the call that closes the scope or by the last "
+                                         "completion only); the variant before the fix has the refuted theorems")
     chk.prove()
-    units = [scope.ScopeV2(), scope.ScopeV1(), scope.ScopeV0()]
-    for u in units:
-        k1.run_unit(chk, u)
-    chk.cov["end_scope_variant_tied"] = "strict (the event is set by the call that closes the scope or by the last completion only)"
+    for u in (scope.ScopeV2(), scope.ScopeV1(), scope.ScopeV0()):
+        k1.run_unit(_Keyed(chk, u.variant), u)
